@@ -480,7 +480,7 @@ func c19RunRoundtrip(in c19RtIn, verbose bool) c19Verdict {
 		var plan []probe
 		epoch := vs.Epoch.UnixNano()
 		for i := 0; i < cf.N; i++ {
-			k := getMsgKey(func() *dns.Msg { q := new(dns.Msg); q.SetQuestion(c19Name(i), dns.TypeA); return q }())
+			k := verifMsgKey(func() *dns.Msg { q := new(dns.Msg); q.SetQuestion(c19Name(i), dns.TypeA); return q }())
 			pts := []probe{{loadAt, i, "load"}, {loadAt + 1, i, "load+1ns"}, {loadAt + time.Second - 1, i, "load+1s-1ns"}, {loadAt + time.Second, i, "load+1s"}}
 			if s, ok := snapA[k]; ok {
 				for bi, bnd := range []int64{s.MsgExp, s.CacheExp} {
@@ -524,7 +524,7 @@ func c19RunRoundtrip(in c19RtIn, verbose bool) c19Verdict {
 			if n%64 == 63 {
 				c19Yield()
 			}
-			k := getMsgKey(func() *dns.Msg { q := new(dns.Msg); q.SetQuestion(c19Name(p.i), dns.TypeA); return q }())
+			k := verifMsgKey(func() *dns.Msg { q := new(dns.Msg); q.SetQuestion(c19Name(p.i), dns.TypeA); return q }())
 			sa := snapA[k]
 			tol := cf.Subsec && (sa.Stored%int64(time.Second) != 0)
 			now := vs.Now().UnixNano()
